@@ -332,6 +332,7 @@ type spanObs struct {
 	glyphTxt []rune // glyph texts in logical order
 	advUnits int64  // sum of XAdvance
 	optUnits int64  // XAdvance of U+00AD / U+200B glyphs shown inside the span
+	glyphAdv []int32 // XAdvance of every glyph, logical order
 }
 
 type lineObs struct {
@@ -352,6 +353,7 @@ func observe(t *canvas.Text) []lineObs {
 					g = s.Glyphs[len(s.Glyphs)-1-k]
 				}
 				so.glyphTxt = append(so.glyphTxt, g.Text)
+				so.glyphAdv = append(so.glyphAdv, g.XAdvance)
 				so.advUnits += int64(g.XAdvance)
 				if g.Text == 0xAD || g.Text == 0x200B {
 					so.optUnits += int64(g.XAdvance)
@@ -379,6 +381,68 @@ func newlineUnits(s string) int {
 		}
 	}
 	return n
+}
+
+// genFit: a box height that cuts the text (single face): the lines kept, their baselines, Height and
+// Text.Text are tied to the stacking model; the kept lines must lie inside the box.
+func genFit(c *hc.Ctx) {
+	for it := 0; it < c.N/4+1; it++ {
+		lc := genCase(c)
+		lc.faces, lc.faceDesc = lc.faces[:1], lc.faceDesc[:1]
+		for i := range lc.pieces {
+			lc.pieces[i].face = 0
+		}
+		if lc.log() == "" {
+			continue
+		}
+		m := lc.faces[0].Metrics()
+		lh := (m.Ascent + m.Descent + m.LineGap) * (1 + lc.lineStretch)
+		lc.height = lh * c.Range(0.3, 6)
+		if c.Chance(0.15) { // exactly k lines high
+			lc.height = m.Ascent + m.Descent + lh*float64(c.Intn(4))
+		}
+		lc.valign = []canvas.TextAlign{canvas.Top, canvas.Top, canvas.Center, canvas.Bottom, canvas.Justify}[c.Intn(5)]
+		lc.idx = it
+		rp := lc.replay()
+		var t *canvas.Text
+		if msg := hc.Try(func() {
+			t = buildRT(lc).ToText(lc.width, lc.height, lc.halign, lc.valign, lc.indent, lc.lineStretch)
+		}); msg != "" {
+			c.Fail("fit-panic", "ToText panicked: "+msg, rp)
+			continue
+		}
+		c.Evals++
+		lines := observe(t)
+		p := recompute(lc)
+		c.Count("fit:cases")
+		if os.Getenv("C16_DEBUGFIT") != "" && len(lines) < len(p.breaks) {
+			fmt.Fprintf(os.Stderr, "FIT lines=%d breaks=%v Text=%q height=%g valign=%v %v\n", len(lines), p.breaks, t.Text, lc.height, lc.valign, rp)
+		}
+		if len(lines) < len(p.breaks) {
+			c.Count("fit:text-cut")
+		}
+		if len(lines) == 0 {
+			c.Count("fit:no-line-fits")
+		}
+		if len(lines) > len(p.breaks) {
+			c.Fail("fit-line-count", fmt.Sprintf("%d lines for %d breakpoints", len(lines), len(p.breaks)), rp)
+			continue
+		}
+		emitStack(c, lc, t, lines, len(p.breaks), lc.faces[0])
+		if !strings.HasPrefix(lc.log(), t.Text) {
+			c.Fail("fit-text-not-prefix", fmt.Sprintf("Text.Text %q is not a prefix of the input", t.Text), rp)
+			continue
+		}
+		// the text the Text object says it holds is what its lines show (plus dropped line-edge characters)
+		emitConserveKind(c, t.Text, lines, "conserve-cut")
+		if lc.valign == canvas.Top {
+			for li, ln := range lines {
+				if ln.y+m.Descent > lc.height+1e-9*(1+lc.height) {
+					c.Fail("fit-line-outside-box", fmt.Sprintf("line %d reaches %g, box height %g", li, ln.y+m.Descent, lc.height), rp)
+				}
+			}
+		}
+	}
 }
 
 func genLayout(c *hc.Ctx) {
@@ -455,6 +519,13 @@ func layoutOne(c *hc.Ctx, lc *layoutCase, sample bool) {
 	}
 	c.Count(fmt.Sprintf("layout:lines=%s", bucket(len(lines))))
 	fail := func(kind, desc string) { c.Fail(kind, desc, rp) }
+	// the character-conservation verdict is decided by the Lean specification (CV line); the Go walk below only
+	// derives the gaps the later checks need, its own verdicts are counted for comparison
+	shadow := func(kind, desc string) { c.Count("layout:go-shadow-verdict:" + strings.SplitN(kind, ":", 2)[0]) }
+	emitConserve(c, log, lines)
+	emitStack(c, lc, t, lines, len(lines), nil)
+	emitBounds(c, t, lines)
+	emitAlign(c, lc, lines)
 
 	// ---- O1: every character once, in logical order; only line-edge whitespace dropped
 	pos := 0
@@ -478,12 +549,12 @@ func layoutOne(c *hc.Ctx, lc *layoutCase, sample bool) {
 			}
 			p := strings.Index(log[pos:], sp.text)
 			if p < 0 {
-				fail("chars-lost-or-reordered", fmt.Sprintf("line %d span %d text %q does not occur after byte %d", li, si, sp.text, pos))
+				shadow("chars-lost-or-reordered", fmt.Sprintf("line %d span %d text %q does not occur after byte %d", li, si, sp.text, pos))
 				charsOK = false
 				break
 			}
 			if si > 0 && p != 0 {
-				fail("chars-dropped-inside-line", fmt.Sprintf("line %d span %d: %q skipped between spans", li, si, log[pos:pos+p]))
+				shadow("chars-dropped-inside-line", fmt.Sprintf("line %d span %d: %q skipped between spans", li, si, log[pos:pos+p]))
 				charsOK = false
 				break
 			}
@@ -523,7 +594,7 @@ func layoutOne(c *hc.Ctx, lc *layoutCase, sample bool) {
 				}
 				// a soft hyphen next to the break that is not the break itself shows nothing and is dropped like U+200B
 				if r != 0xAD && !droppable(r) {
-					fail("chars-lost", fmt.Sprintf("gap %d drops %q", gi, g))
+					shadow("chars-lost", fmt.Sprintf("gap %d drops %q", gi, g))
 					charsOK = false
 					break
 				}
@@ -533,11 +604,11 @@ func layoutOne(c *hc.Ctx, lc *layoutCase, sample bool) {
 				li := nonEmpty[gi-1]
 				last := lines[li].spans[len(lines[li].spans)-1].text
 				if !strings.HasSuffix(last, "\u00ad") {
-					fail("soft-hyphen-dropped-at-break", fmt.Sprintf("gap %d drops %q and line %d does not end in the soft hyphen", gi, g, li))
+					shadow("soft-hyphen-dropped-at-break", fmt.Sprintf("gap %d drops %q and line %d does not end in the soft hyphen", gi, g, li))
 				}
 			}
 			if gi == 0 && g != "" && charsOK {
-				fail("chars-dropped-at-start", fmt.Sprintf("text before the first line dropped: %q", g))
+				shadow("chars-dropped-at-start", fmt.Sprintf("text before the first line dropped: %q", g))
 			}
 			// explicit newlines start a new line
 			if gi > 0 && gi < len(emptiesBefore) && charsOK {
@@ -546,7 +617,7 @@ func layoutOne(c *hc.Ctx, lc *layoutCase, sample bool) {
 					if t.Overflows {
 						kind += ":Overflows" // text.Linebreak's overflow fallback can skip a forced break (C17)
 					}
-					fail(kind, fmt.Sprintf("gap %q has %d line separators but only %d empty lines", g, m, emptiesBefore[gi]))
+					shadow(kind, fmt.Sprintf("gap %q has %d line separators but only %d empty lines", g, m, emptiesBefore[gi]))
 				}
 			}
 		}
@@ -558,7 +629,7 @@ func layoutOne(c *hc.Ctx, lc *layoutCase, sample bool) {
 						if t.Overflows {
 							kind += ":Overflows" // forced break skipped by text.Linebreak's overflow fallback (C17)
 						}
-						fail(kind, fmt.Sprintf("line %d shows a line separator in %q", li, sp.text))
+						shadow(kind, fmt.Sprintf("line %d shows a line separator in %q", li, sp.text))
 					}
 				}
 			}
@@ -839,6 +910,51 @@ func layoutOne(c *hc.Ctx, lc *layoutCase, sample bool) {
 		c.Count("sl:skipped-long")
 	}
 
+	emitGlue(c, lc, p, lines, ranges)
+	// branches of the slicing loop reached by this layout
+	{
+		prevB := -1
+		for li := range lines {
+			bp := p.breaks[li]
+			a0 := prevB + 1
+			lead := 0
+			for a0 < bp && p.items[a0].Type != text.BoxType {
+				lead += p.items[a0].Size
+				a0++
+			}
+			if lead > 0 {
+				c.Count("sl-branch:leading-glyphs-skipped")
+			}
+			if a0 == bp {
+				c.Count("sl-branch:line-without-box")
+			}
+			trail := 0
+			for k := bp - 1; k >= a0 && p.items[k].Type != text.BoxType; k-- {
+				trail += p.items[k].Size
+			}
+			if trail > 0 {
+				c.Count("sl-branch:sized-glue-or-penalty-before-break")
+			}
+			it := p.items[bp]
+			switch {
+			case it.Type == text.GlueType:
+				c.Count("sl-branch:break-at-glue")
+			case it.Penalty <= -text.Infinity:
+				c.Count(fmt.Sprintf("sl-branch:break-forced(size=%d)", it.Size))
+			case it.Size == 1 && ranges[li][2] == 1:
+				c.Count("sl-branch:break-hyphenated")
+			case it.Size == 1:
+				c.Count("sl-branch:break-at-zwsp-penalty")
+			default:
+				c.Count("sl-branch:break-at-penalty(size=0)")
+			}
+			if bp+1 < len(p.items) && p.items[bp+1].Type == text.GlueType {
+				c.Count("sl-branch:glue-absorbed-after-break")
+			}
+			prevB = bp
+		}
+	}
+
 	// the breaker's measure of a line is the width of what the line shows (hyphen included): this is what
 	// makes "fits the box" of text.Linebreak mean "inside the box" for the laid-out line. Judged where the
 	// two notions coincide: no glue between the last box and the break (gap of at most one character), no
@@ -1036,4 +1152,232 @@ func bucket(n int) string {
 		return "4-8"
 	}
 	return "9+"
+}
+
+
+// ---------------------------------------------------------------------------------------------
+// raw observations for the Lean models / specifications
+
+func runeClassChar(r rune) byte {
+	switch {
+	case isSpaceR(r):
+		return 's'
+	case r == '\r':
+		return 'r'
+	case r == '\n':
+		return 'l'
+	case isNewlineR(r):
+		return 'n'
+	case r == 0x200B:
+		return 'z'
+	case r == 0xAD:
+		return 'h'
+	}
+	return 'c'
+}
+
+// emitConserve sends the rune classes of the text and the rune range of every span (from the glyph
+// clusters, not by searching the text) to the Lean conservation specification.
+func emitConserve(c *hc.Ctx, ref string, lines []lineObs) { emitConserveKind(c, ref, lines, "conserve") }
+
+func emitConserveKind(c *hc.Ctx, ref string, lines []lineObs, kind string) {
+	runeAt := make(map[int]int, len(ref)+1)
+	n := 0
+	var sb strings.Builder
+	sb.WriteString("CV =")
+	for i, r := range ref {
+		runeAt[i] = n
+		n++
+		sb.WriteByte(runeClassChar(r))
+	}
+	runeAt[len(ref)] = n
+	sb.WriteString(" |")
+	for _, ln := range lines {
+		for _, sp := range ln.spans {
+			a, okA := runeAt[int(sp.firstCl)]
+			b, okB := runeAt[int(sp.firstCl)+len(sp.text)]
+			if !okA || !okB {
+				a, b = n+1, n+1 // not on rune boundaries of the text: let the specification reject it
+			}
+			fmt.Fprintf(&sb, " %d:%d", a, b)
+		}
+		sb.WriteString(" /")
+	}
+	if sb.Len() < 8000 {
+		c.Case(sb.String(), "!", kind)
+		c.Count("cv:cases:" + kind)
+	}
+}
+
+func vaChar(v canvas.TextAlign) byte {
+	switch v {
+	case canvas.Center, canvas.Middle:
+		return 'C'
+	case canvas.Bottom:
+		return 'B'
+	case canvas.Justify:
+		return 'J'
+	}
+	return 'T'
+}
+
+// emitStack: heights of every line as ToText reads them (independently: maxima over the faces of the
+// observed spans; the last run's face for a line without spans) -> baselines, Height, Heights().
+// `total` lines were asked for; lines beyond the observed ones (cut by the box height) use `cutFace`.
+func emitStack(c *hc.Ctx, lc *layoutCase, t *canvas.Text, lines []lineObs, total int, cutFace *canvas.FontFace) {
+	if len(lc.pieces) == 0 || lc.log() == "" {
+		return
+	}
+	lastFace := lc.faces[lc.pieces[len(lc.pieces)-1].face]
+	var sb strings.Builder
+	fmt.Fprintf(&sb, "ST %s %s %c", hc.H(1.0+lc.lineStretch), hc.H(lc.height), vaChar(lc.valign))
+	for j := 0; j < total; j++ {
+		asc, desc, bot, empty := 0.0, 0.0, 0.0, false
+		if j < len(lines) && len(lines[j].spans) > 0 {
+			for _, sp := range lines[j].spans {
+				m := sp.face.Metrics()
+				asc, desc, bot = math.Max(asc, m.Ascent), math.Max(desc, m.Descent), math.Max(bot, m.Descent+m.LineGap)
+			}
+		} else {
+			f := lastFace
+			if j >= len(lines) && cutFace != nil {
+				f = cutFace
+			}
+			m := f.Metrics()
+			asc, desc, bot = m.Ascent, m.Descent, m.Descent+m.LineGap
+			empty = j < len(lines)
+		}
+		fmt.Fprintf(&sb, " %s %s %s %c", hc.H(asc), hc.H(desc), hc.H(bot), b01(empty))
+	}
+	var ob strings.Builder
+	fmt.Fprintf(&ob, "%d", len(lines))
+	for _, ln := range lines {
+		ob.WriteString(" " + hc.H(ln.y))
+	}
+	top, bottom := t.Heights()
+	fmt.Fprintf(&ob, " | %s | %s %s", hc.H(t.Height), hc.H(top), hc.H(bottom))
+	c.Case(sb.String(), "=", ob.String())
+	c.Count("st:cases")
+	c.Count("st:valign=" + string(vaChar(lc.valign)))
+	if total > len(lines) {
+		c.Count("st:lines-cut-by-height")
+	}
+	if n := len(lines); n > 0 && len(lines[n-1].spans) == 0 {
+		c.Count("st:last-line-empty")
+	}
+}
+
+func emitBounds(c *hc.Ctx, t *canvas.Text, lines []lineObs) {
+	var sb strings.Builder
+	sb.WriteString("BD")
+	for _, ln := range lines {
+		for _, sp := range ln.spans {
+			m := sp.face.Metrics()
+			fmt.Fprintf(&sb, " %s %s %s %s %s", hc.H(sp.x), hc.H(sp.w), hc.H(ln.y), hc.H(m.Ascent), hc.H(m.Descent))
+		}
+	}
+	if sb.Len() > 8000 {
+		return
+	}
+	b := t.Bounds()
+	c.Case(sb.String(), "=", hc.Hs(b.X0, b.Y0, b.X1, b.Y1))
+	c.Count("bd:cases")
+}
+
+// emitGlue: the glue adjustment of every line: items of the line, the breaker's ratio and the shaped
+// advances of its glyphs -> the advances the line shows.
+func emitGlue(c *hc.Ctx, lc *layoutCase, p *pipeline, lines []lineObs, ranges [][3]int) {
+	prevB := -1
+	for li, ln := range lines {
+		if li >= len(p.breaks) {
+			break
+		}
+		bp := p.breaks[li]
+		a0 := prevB + 1
+		prevB = bp
+		rg := ranges[li]
+		if len(ln.spans) == 0 || rg[0] < 0 || rg[1] > len(p.glyphs) {
+			continue
+		}
+		for a0 < bp && p.items[a0].Type != text.BoxType {
+			a0++
+		}
+		ratio := p.ratios[li]
+		if ratio == 0 && !c.Chance(0.1) {
+			continue // unadjusted lines: a sample is enough
+		}
+		m := rg[1] - rg[0] - rg[2]
+		var sb strings.Builder
+		fmt.Fprintf(&sb, "GA %s %d |", hc.H(ratio), m)
+		nglue := 0
+		for _, it := range p.items[a0:bp] {
+			fmt.Fprintf(&sb, " %c:%d:%s:%s:%s", "BGP"[int(it.Type)], it.Size, hc.H(it.Width), hc.H(it.Stretch), hc.H(it.Shrink))
+			if it.Type == text.GlueType && it.Width > 0 {
+				nglue++
+			}
+		}
+		sb.WriteString(" |")
+		for g := rg[0]; g < len(p.glyphs) && g < rg[0]+m+8; g++ {
+			fmt.Fprintf(&sb, " %d", p.glyphs[g].XAdvance)
+		}
+		var ob strings.Builder
+		ob.WriteString("a")
+		k := 0
+		for _, sp := range ln.spans {
+			for _, a := range sp.glyphAdv {
+				if k < m {
+					fmt.Fprintf(&ob, " %d", a)
+				}
+				k++
+			}
+		}
+		if sb.Len() < 8000 {
+			c.Case(sb.String(), "=", ob.String())
+			switch {
+			case ratio > 0:
+				c.Count("ga:stretched")
+			case ratio < 0:
+				c.Count("ga:shrunk")
+			default:
+				c.Count("ga:ratio=0")
+			}
+			if nglue == 0 {
+				c.Count("ga:no-glue-with-width")
+			}
+		}
+	}
+}
+
+
+// emitAlign: widths of the spans of a line -> X of every span (lines without right-to-left spans: there
+// reorderSpans leaves the positions alone).
+func emitAlign(c *hc.Ctx, lc *layoutCase, lines []lineObs) {
+	h := map[canvas.TextAlign]byte{canvas.Left: 'L', canvas.Right: 'R', canvas.Center: 'C', canvas.Justify: 'J'}[lc.halign]
+	for li, ln := range lines {
+		if len(ln.spans) == 0 {
+			continue
+		}
+		plain := true
+		for _, sp := range ln.spans {
+			if sp.level != 0 {
+				plain = false
+			}
+		}
+		if !plain {
+			c.Count("al:skip-bidi-line")
+			continue
+		}
+		var sb, ob strings.Builder
+		fmt.Fprintf(&sb, "AL %c %s %s %c", h, hc.H(lc.width), hc.H(lc.indent), b01(li == 0))
+		ob.WriteString("x")
+		for _, sp := range ln.spans {
+			sb.WriteString(" " + hc.H(sp.w))
+			ob.WriteString(" " + hc.H(sp.x))
+		}
+		c.Case(sb.String(), "=", ob.String())
+		c.Count("al:cases:" + string(h))
+		if len(ln.spans) > 1 {
+			c.Count("al:multi-span")
+		}
+	}
 }
